@@ -26,6 +26,9 @@
 (*      B  purgeBuffers does not advance active/filled a second time when    *)
 (*         buildSample has already dropped a run itself (as is, filled.head  *)
 (*         can overtake filled.tail and the loop walks the whole ring);      *)
+(*      b  (weaker form of B, keeps the skipping of one more packet after a  *)
+(*         dropped run that existing tests of the package pin down)          *)
+(*         purgeBuffers stops when buildSample has emptied filled;           *)
 (*      C  the builder remembers the sequence number up to which it has      *)
 (*         consumed or dropped and ignores older packets (as is, once its    *)
 (*         locations are empty it has no memory and a late or duplicated     *)
@@ -66,12 +69,13 @@ VARIABLES phase, par, frames, pkts, script, pending, nextIdx, sent, nloss, ndup,
 vars == <<phase, par, frames, pkts, script, pending, nextIdx, sent, nloss, ndup, npop, nflush, sb, emitted, pushed, premOK, bad, since, poppedSince>>
 
 \* which of the repairs A, B, C (see the header) the modelled implementation has
-CurrentRepairs == {"A", "B", "C"}
+CurrentRepairs == {"A", "b", "C"}
 Repairs == CASE Impl = "pinned"  -> {}
              [] Impl = "current" -> CurrentRepairs
              [] Impl = "fixA" -> {"A"} [] Impl = "fixB" -> {"B"} [] Impl = "fixC" -> {"C"}
              [] Impl = "fixAB" -> {"A", "B"} [] Impl = "fixAC" -> {"A", "C"} [] Impl = "fixBC" -> {"B", "C"}
              [] Impl = "fixABC" -> {"A", "B", "C"}
+             [] Impl = "fixAbC" -> {"A", "b", "C"} [] Impl = "fixbC" -> {"b", "C"}
 Has(r) == r \in Repairs
 
 Pick(S) == IF Sampling THEN RandomSubset(1, S) ELSE S
@@ -172,6 +176,8 @@ PurgeLoopN(s0, flush, delay, maxLate, budget) ==
   IF HasData(sA.active) /\ sA.active.h = sA.filled.h
   THEN LET r == BuildSample(sA, TRUE) IN
        IF r.built THEN PurgeLoopN(r.s, flush, delay, maxLate, budget - 1)
+       ELSE IF Has("b") /\ ~HasData(r.s.filled)
+            THEN r.s   \* repair b: buildSample has dropped what was left; nothing to advance over
        ELSE IF Has("B") /\ r.s.filled.h # sA.filled.h
             THEN \* repair B: buildSample has already dropped the run and moved filled.head itself
                  PurgeLoopN(r.s, flush, delay, maxLate, budget - 1)
